@@ -10,11 +10,25 @@ type vC15Gen struct {
 
 func (g *vC15Gen) elem(d int) Sexp {
 	e := g.env
-	n := 5
+	n := 10
 	if d > 0 {
-		n = 7
+		n = 12
 	}
 	switch vChoice("elem", n) {
+	case 5: // literal atoms of every other kind stay as written
+		return SexpNull
+	case 6:
+		return vA(e)
+	case 7:
+		return &SexpStr{S: "str"}
+	case 8:
+		return &SexpBool{Val: true}
+	case 9:
+		return vL(vS(e, "quote"), vS(e, "q"))
+	case 10:
+		return g.seq(d-1, false)
+	case 11:
+		return g.seq(d-1, true)
 	case 0:
 		return vSmallInt("lit")
 	case 1:
@@ -23,12 +37,8 @@ func (g *vC15Gen) elem(d int) Sexp {
 		return vL(vS(e, "unquote"), vS(e, "v"))
 	case 3:
 		return vL(vS(e, "unquote-splicing"), vS(e, "l"))
-	case 4:
-		return vL(vS(e, "unquote"), vL(vS(e, "+"), vS(e, "v"), vI(1)))
-	case 5:
-		return g.seq(d-1, false)
 	default:
-		return g.seq(d-1, true)
+		return vL(vS(e, "unquote"), vL(vS(e, "+"), vS(e, "v"), vI(1)))
 	}
 }
 
@@ -74,6 +84,12 @@ func vC15Subst(ev *vrEval, x Sexp) vrVal {
 		return vrVal{k: vrInt, i: t.Val}
 	case *SexpSymbol:
 		return vrVal{k: vrSym, s: t.name}
+	case *SexpStr:
+		return vrVal{k: vrStr, s: t.S}
+	case *SexpBool:
+		return vrVal{k: vrBool, b: t.Val}
+	case *SexpSentinel:
+		return vrVal{}
 	case *SexpPair:
 		if inner, ok := isForm(t, "unquote"); ok {
 			return ev.eval(inner, ev.global)
